@@ -359,18 +359,23 @@ impl<'a> Parser<'a> {
 
     /// Parse block size specification
     fn parse_block_size_spec(&mut self) -> Result<BlockSizeSpec, ESpecError> {
+        let size_position = self.pos;
         let mut size = self.parse_number()?;
+        let too_large = || ESpecError::InvalidNumber {
+            position: size_position,
+            error: "Block size too large".to_string(),
+        };
 
         // Check for unit (K or M)
         if let Some(unit) = self.peek() {
             match unit {
                 'K' => {
                     self.consume('K')?;
-                    size *= 1024;
+                    size = size.checked_mul(1024).ok_or_else(too_large)?;
                 }
                 'M' => {
                     self.consume('M')?;
-                    size *= 1024 * 1024;
+                    size = size.checked_mul(1024 * 1024).ok_or_else(too_large)?;
                 }
                 'G' | 'T' | 'P' => {
                     return Err(ESpecError::InvalidUnit(unit));
